@@ -243,7 +243,8 @@ def _inline_at(caller: ast.AST, stmt: ast.stmt, call: ast.Call, helper: ast.Func
             txt = ast.unparse(v)
             if any(txt == t or txt.startswith(t + '.') for t in stored):
                 return None
-    clash = locals_h & (_names(caller) | {x.arg for x in caller.args.args + caller.args.kwonlyargs})
+    cargs = caller.args.args + caller.args.kwonlyargs if hasattr(caller, 'args') else []
+    clash = locals_h & (_names(caller) | {x.arg for x in cargs})
     rename = {k: f'{k}__{helper.name.strip("_")}' for k in clash}
     new_body = [_Subst(params, rename).visit(clone(s)) for s in body]
     def is_none(v):
@@ -357,6 +358,13 @@ def _nested_ok(stmt: ast.stmt, call: ast.Call, helper: ast.FunctionDef) -> bool:
     return True
 
 
+class _ModuleBody:
+    """The top-level code of a module as a caller."""
+    def __init__(self, mi):
+        self.node = mi.tree
+        self.qualname = f'{mi.base}:<module>'
+
+
 def absorb_single_use_procedures(repo) -> List[str]:
     absorbed: List[str] = []
     for _round in range(3):
@@ -397,6 +405,7 @@ def absorb_single_use_procedures(repo) -> List[str]:
                 if _eligible(h.node, False) is not None:
                     continue
                 callers = [f for f in mi.functions.values() if f is not h] + [m for ci in mi.classes.values() for m in ci.methods.values()]
+                callers.append(_ModuleBody(mi))         # script-style modules (__main__) call helpers from top-level code
                 for c in callers:
                     site = _call_site(c.node, hname, False)
                     if site is None:
